@@ -231,9 +231,44 @@ def run_unit(repo, unit, builddir, tier):
                     and len(f.get('closures_left') or []) > f.get('closures_ok', 0):
                 opaque.append('%s (%s:%s)' % (f['item'], f['file'], ','.join(str(x) for x in f['closures_left'])))
         if opaque:
-            out['status'] = 'undecided'
-            out['reason'] = 'obligation failed in a function that now holds a closure the proof was not written for: ' + '; '.join(opaque)
-            return out
+            # second attempt (X2d-auto): where such a closure is handed to `.map` / `.and_then` / `.filter` of what type-checks as an
+            # Option, it is written as the match it abbreviates — a meaning-preserving rewriting, so a pass is a pass and a failure
+            # in a function that holds no unexpected closure any more is a violation; anything else stays undecided
+            reason = 'obligation failed in a function that now holds a closure the proof was not written for: ' + '; '.join(opaque)
+            try:
+                sp2 = splice.build(repo, tpath, canary=False, auto=True)
+            except splice.AnchorLost as e:
+                sp2 = None
+            r2 = None
+            if sp2 is not None and sp2.rules.get('X2d-auto'):
+                auto_path = os.path.join(builddir, fname + '_auto.rs')
+                open(auto_path, 'w').write(sp2.text)
+                r2 = run_file(auto_path, timeout)
+            if r2 is None or r2['status'] == 'undecided':
+                out['status'] = 'undecided'
+                out['reason'] = reason + ('' if r2 is None else ' (and the text with those closures written as matches is not accepted: %s)' % r2.get('reason', '')[:200])
+                return out
+            out['auto_desugar'] = {'rule': 'X2d-auto', 'sites': sp2.rules.get('X2d-auto'), 'file': os.path.relpath(auto_path, '/verif')}
+            out['rules_fired'] = sp2.rules
+            out['dropped_debug_asserts'] = sp2.dropped_debug_asserts
+            out['functions'] = [f for f in sp2.functions if f['role'] in ('main', 'helper')]
+            out['verified'] = r2.get('verified', 0)
+            out['errors'] = r2.get('errors', 0)
+            out['checker_cmd'] = 'verus %s --output-json --time' % os.path.relpath(auto_path, '/verif')
+            if r2['status'] == 'failed':
+                failed2 = set(d['function'] for d in r2['failures'])
+                opaque2 = ['%s (%s:%s)' % (f['item'], f['file'], ','.join(str(x) for x in f['closures_left'])) for f in sp2.functions
+                           if f.get('role') in ('main', 'helper') and f['item'].split('::')[-1] in failed2
+                           and len(f.get('closures_left') or []) > f.get('closures_ok', 0)]
+                if opaque2:
+                    out['status'] = 'undecided'
+                    out['reason'] = reason
+                    return out
+                sp, r, main_path = sp2, r2, auto_path
+            else:
+                sp, r = sp2, r2
+                out['status'] = r2['status']
+    if r['status'] == 'failed':
         fails = []
         for d in r['failures']:
             ol = d['line']
